@@ -19,8 +19,28 @@ from .eqlshapes import Item, Other, EqItem, an, the, entity, set_of, let, symbol
 CLASSES = {"Item": Item, "Other": Other, "EqItem": EqItem}
 
 
+@S.symbol
+@S.dataclass(eq=False)
+class Unrelated:
+    """A @symbol class unrelated to Item / Other with the same attribute names."""
+    a: Any = 0
+    b: Any = 0
+    c: Any = 0
+    name: str = ""
+
+
+class Pools(dict):
+    """pool name -> objects; .foreign: pool name -> objects of an unrelated class listed in that pool's supplied domain"""
+
+    def __init__(self, *a, **k):
+        super().__init__(*a, **k)
+        self.foreign = {}
+
+
 def make_pools(mk, spec) -> Dict[str, List[Any]]:
-    pools: Dict[str, List[Any]] = {}
+    pools: Dict[str, List[Any]] = Pools()
+    for p, k in spec.get("foreign", {}).items():
+        pools.foreign[p] = [Unrelated(name="foreign%d" % i) for i in range(k)]
     cond = spec.get("cond")
     need = S.extras_needed(cond) if cond else set()
     for sel in spec.get("select", []):
@@ -51,7 +71,11 @@ def declare_vars(spec, pools):
     V = {}
     for v, p in spec["vars"].items():
         cls = type(pools[p][0]) if pools[p] else CLASSES[spec.get("classes", {}).get(p, "Item" if p == "X" else "Other")]
-        V[v] = let(cls, domain=pools[p])
+        dom = pools[p]
+        if spec.get("foreign", {}).get(p):
+            # objects of an unrelated class listed in the supplied domain: filtered out by type, never solutions
+            dom = list(dom) + list(pools.foreign[p])
+        V[v] = let(cls, domain=dom)
     return V
 
 
